@@ -138,7 +138,32 @@ func randomMutation(p *prog, root *model.Node) {
 		return
 	}
 	keys := n.SortedKeys()
-	switch op := r.Intn(7); {
+	switch op := r.Intn(8); {
+	case op == 7 && len(keys) > 0:
+		// a key leaves and comes back (with the old or another value) without anybody looking in between; and the same for
+		// a key that was never there: set, unset, set
+		k := keys[r.Intn(len(keys))]
+		if r.Chance(1, 3) {
+			k = spec.GenKey(r)
+		}
+		v1, v2 := p.treeSafeVal(n), p.treeSafeVal(n)
+		if old, ok := n.M[k]; ok && r.Bool() {
+			v2 = old
+		}
+		p.lazyHold++
+		p.step("Set", fmt.Sprintf("%s.Set(%q, %s) [before it leaves]", n.Name(), k, v1), false, func() {
+			n.M[k] = v1
+			n.Object().Set(k, p.h.Arg(v1))
+		})
+		p.step("Unset", fmt.Sprintf("%s.Unset(%q) [leaves]", n.Name(), k), false, func() {
+			delete(n.M, k)
+			n.Object().Unset(k)
+		})
+		p.step("Set", fmt.Sprintf("%s.Set(%q, %s) [comes back]", n.Name(), k, v2), false, func() {
+			n.M[k] = v2
+			n.Object().Set(k, p.h.Arg(v2))
+		})
+		p.lazyHold--
 	case op == 6:
 		// Unset of keys that are not there (a no-op), alone, twice, next to a present one; absent keys that would sort
 		// before, between and behind the present ones
